@@ -288,7 +288,7 @@ func main() {
 			if strings.Contains(f, "zzverif") || strings.Contains(f, "Verif") || strings.Contains(f, "verif") {
 				continue
 			}
-			if strings.Contains(f, "openfga/language") || strings.Contains(f, "net/url") || strings.Contains(f, "go-multierror") || strings.Contains(f, "antlr") {
+			if strings.Contains(f, "openfga/language") || strings.Contains(f, "net/url") || strings.Contains(f, "go-multierror") || strings.Contains(f, "antlr") || strings.Contains(f, "gonum.org/") {
 				keep[f] = n
 			}
 		}
